@@ -600,13 +600,44 @@ def _import_variants(qp):
         body_checked = True
     else:
         raise TranslatorError(f"_initialize_pass: statement of a gate body not recognised: {sb}")
+    # _initialize_pass: declarations (is a second declaration of a register / a user gate refused?)
+    def branch(test):
+        r = [n for n in ast.walk(ip) if isinstance(n, ast.If) and U(n.test) == test and
+             not any(isinstance(b, ast.Raise) for b in n.body)]
+        if len(r) != 1:
+            raise TranslatorError(f"_initialize_pass: branch `{test}` not recognised")
+        return [U(x) for x in r[0].body]
+    g_old = ["gate_name = command[1]", "gate_args, gate_regs = _gate_processor(command[1:])",
+             "curr_gate = QasmGate(gate_name, gate_args, gate_regs)", "gate_defn_mode = True"]
+    g_chk = ("if gate_name in self.gate_names and gate_name not in self.predefined_gates:\n"
+             "    raise ValueError('QASM: gate {} is already defined'.format(gate_name))")
+
+    def reg_branch(var, table, count, chk):
+        return ["groups = re.match('(.*)\\\\[(.*)\\\\]', ''.join(command[1:]))",
+                f"if groups:\n    {var} = groups.group(1)\n" + (f"    self._check_new_register({var})\n" if chk else "") +
+                f"    num_regs = int(groups.group(2))\n    self.{table}[{var}] = list(range(self.{count}, self.{count} + num_regs))\n"
+                f"    self.{count} += num_regs\nelse:\n    raise SyntaxError('QASM: incorrect bracket formatting')"]
+    gb, qb, cb2 = branch("command[0] == 'gate'"), branch("command[0] == 'qreg'"), branch("command[0] == 'creg'")
+    fnr = [n for n in qp.body if isinstance(n, ast.FunctionDef) and n.name == "_check_new_register"]
+    if gb == g_old and qb == reg_branch("qubit_name", "qubit_regs", "num_qubits", False) and \
+            cb2 == reg_branch("cbit_name", "cbit_regs", "num_cbits", False):
+        redecl = False
+    elif gb == [g_old[0], g_chk] + g_old[1:] and qb == reg_branch("qubit_name", "qubit_regs", "num_qubits", True) and \
+            cb2 == reg_branch("cbit_name", "cbit_regs", "num_cbits", True):
+        if len(fnr) != 1 or [U(x) for x in fnr[0].body[1:]] != [
+                "if name in self.qubit_regs or name in self.cbit_regs:\n"
+                "    raise ValueError('QASM: register {} is already declared'.format(name))"]:
+            raise TranslatorError("_check_new_register: body not recognised")
+        redecl = True
+    else:
+        raise TranslatorError(f"_initialize_pass: declarations not recognised: {gb} / {qb} / {cb2}")
     if not (fp_barrier == rp_barrier == ip_barrier):
         raise TranslatorError("barrier statements: _initialize_pass, _final_pass and _regs_processor do not belong to "
                               "the same variant")
     if rp_empty != ga_empty:
         raise TranslatorError("empty registers: _regs_processor and _gate_add do not belong to the same variant")
     return {"if_skip": if_skip, "if_rev": if_rev, "barrier_checked": fp_barrier, "empty_reg_ok": rp_empty,
-            "empty_body_ok": empty_body_ok, "body_checked": body_checked}
+            "empty_body_ok": empty_body_ok, "body_checked": body_checked, "redecl_checked": redecl}
 
 
 # ------------------------------------------------------------------------------------------
@@ -692,6 +723,8 @@ def render():
     A("/-- `_regs_processor` / `_gate_add`: a statement on empty registers has no instance (arity still checked) -/")
     A("def emptyRegOk : Bool := " + ("true" if i["empty_reg_ok"] else "false"))
     A("")
+    A("/-- `_initialize_pass` refuses a second declaration of a register or of a user-defined gate -/")
+    A("def redeclChecked : Bool := " + ("true" if i["redecl_checked"] else "false"))
     A("/-- `_initialize_pass` checks every statement of a gate body when the definition is read (`_check_body_call`) -/")
     A("def bodyChecked : Bool := " + ("true" if i["body_checked"] else "false"))
     A("/-- `_initialize_pass` accepts a gate definition without any gate statement in its body (the identity) -/")
